@@ -44,6 +44,8 @@ impl AtomicBucketList {
 
     pub fn push_front(&self, bucket: BucketRef) {
         let bucket_ptr = bucket.as_ptr();
+        #[cfg(lasso_verif)]
+        crate::verif::point(crate::verif::Point::PushLoadHead);
         let mut head_ptr = self.head.load(Ordering::Acquire);
 
         loop {
@@ -53,6 +55,8 @@ impl AtomicBucketList {
                 addr_of_mut!((*bucket_ptr).next).write(AtomicPtr::new(head_ptr));
             }
 
+            #[cfg(lasso_verif)]
+            crate::verif::point(crate::verif::Point::PushCas);
             // Replace the old head pointer with the pointer to our new bucket
             let exchange = self.head.compare_exchange_weak(
                 head_ptr,
@@ -107,6 +111,8 @@ impl<'a> Iterator for AtomicBucketIter<'a> {
     type Item = BucketRef;
 
     fn next(&mut self) -> Option<Self::Item> {
+        #[cfg(lasso_verif)]
+        crate::verif::point(crate::verif::Point::ArenaNextBucket);
         let current = self.current.load(Ordering::Acquire);
 
         NonNull::new(current).map(|current| {
@@ -268,10 +274,14 @@ impl BucketRef {
         let capacity = self.capacity().get();
 
         // TODO: Add backoff to this loop so we don't thrash it
+        #[cfg(lasso_verif)]
+        crate::verif::point(crate::verif::Point::ReserveLoadLen);
         let mut len = length.load(Ordering::Acquire);
         for _ in 0..100 {
             let new_length = len + additional;
             if new_length <= capacity {
+                #[cfg(lasso_verif)]
+                crate::verif::point(crate::verif::Point::ReserveCas);
                 match length.compare_exchange_weak(
                     len,
                     new_length,
